@@ -316,9 +316,41 @@ def own_edit_regenerates() -> tuple[int, list[dict]]:
 			if nonforced != forced:
 				diff = sorted(k for k in set(nonforced) | set(forced) if nonforced.get(k) != forced.get(k))
 				fails.append({'modules': [long_, short], 'history': ['run', f'edit src/{short}', 'run', 'run -f'], 'what': f'after editing src/{short} a non-forced run leaves {diff} different from a forced run', 'nonforced': str({k: nonforced.get(k, '')[-60:] for k in diff})[:300]})
+			# an output that exists but carries no readable header (emptied, or replaced by a stub) must be regenerated by a non-forced run
+			outs = [os.path.join(d, f) for d, _, fs in os.walk(os.path.join(p.dir, 'out')) for f in fs]
+			for content, label in (('', 'emptied'), ('// hand-written stub\nint size();\n', 'replaced by a stub without header')):
+				if not outs:
+					break
+				with open(outs[0], 'w') as fh:
+					fh.write(content)
+				p.run(force=False)
+				runs += 1
+				got = {k: body_without_header(v) for k, v in p.outputs().items()}
+				if got != forced:
+					fails.append({'modules': [long_, short], 'history': ['run -f', f'{os.path.relpath(outs[0], p.dir)} {label}', 'run'], 'what': f'an output that was {label} is not regenerated by a non-forced run'})
 		finally:
 			p.close()
 	return runs, fails
+
+
+def prefix_module_cache() -> tuple[int, list[dict]]:
+	"""C05: two modules whose paths share a textual prefix (util / util_ext), both imported by a third; after an edit of the longer-named one a warm run equals a cold run."""
+	fails: list[dict] = []
+	p = Project()
+	try:
+		p.write('util_ext.py', 'class Ext:\n\tdef size(self) -> int:\n\t\treturn 1\n')
+		p.write('util.py', 'def base() -> int:\n\treturn 1\n')
+		p.write('app.py', 'from src.util_ext import Ext\nfrom src.util import base\n\ndef f(e: Ext) -> None:\n\tx = e.size()\n\ty = base()\n')
+		p.run(force=True)
+		p.write('util_ext.py', 'class Ext:\n\tdef size(self) -> str:\n\t\treturn "s"\n')
+		warm = p.run_outcome()
+		p.clear_cache()
+		cold = p.run_outcome()
+		if warm != cold:
+			fails.append({'history': ['run', 'edit src/util_ext.py (return type)', 'run', 'clear-cache', 'run'], 'what': 'warm run differs from cold run after editing a module whose path extends the path of another module', 'diff': sorted(k for k in set(warm) | set(cold) if warm.get(k) != cold.get(k))})
+	finally:
+		p.close()
+	return 3, fails
 
 
 BAD_SOURCES = [
